@@ -43,6 +43,13 @@ def check(run):
     for key in ("formak.python:compile", "formak.python:compile_ekf", "formak.cpp:compile", "formak.cpp:compile_ekf"):
         for cont in ("set", "list") if run.tier == "thorough" else ("set",):
             items.append((V.EntryPoint(key, cont), V.entry_callees()))
+    # a reduced native fault-injection sweep always runs, in its own process, while the contracts are verified
+    import json as _json
+    import os as _os
+    import subprocess as _sp
+    import sys as _sys
+
+    early = _sp.Popen([_sys.executable, "-m", "replay.faults_cli", str(run.seed), "set", "0", _json.dumps([3, 1, 2, [2]])], stdout=_sp.PIPE, stderr=_sp.PIPE, text=True, cwd=driver.VERIF, env=dict(_os.environ, FORMAK_REPO=driver.REPO))
     reps = run.verify_many(items)
     pending = []
     for rep in reps:
@@ -50,9 +57,22 @@ def check(run):
             pending.append((rep, ob, model, definitive))
     need = run.tier == "thorough" or pending or run.undecided or any(r.status != "ok" for r in run.reports)
     problems, stats = [], None
-    if need:
+    try:
+        out, err = early.communicate(timeout=900)
+        line = [ln for ln in out.splitlines() if ln.startswith("FAULTSJSON ")]
+        if line:
+            res = _json.loads(line[0][len("FAULTSJSON "):])
+            problems, stats0 = res["problems"], res["stats"]
+            run.native_runs += stats0["valid_definitions"] + stats0["single_faults"]
+            run.bounded.append({"what": "native fault injection (always): one definition with 3 states, 1 calibration, 2 controls, one 2-reading sensor; every listed single fault at first/last position through all five entry points", "bound": f"{stats0}", "failures": len(problems), "counted_as_proved": False})
+        else:
+            run.notes.append(f"early fault sweep produced no result: {err[-300:]}")
+    except Exception as e:  # harness problems never become violations
+        run.notes.append(f"early fault sweep failed: {e!r}")
+    if need or problems:
         shapes = [(2, 1, 1, [2]), (3, 2, 2, [1, 2]), (1, 0, 0, [1])] if run.tier == "thorough" else [(2, 1, 1, [2])]
-        problems, stats = native_sweep(run, shapes, ("set", "list"), 4 if run.tier == "thorough" else 2)
+        more, stats = native_sweep(run, shapes, ("set", "list"), 4 if run.tier == "thorough" else 2)
+        problems = problems + more
         run.bounded.append({"what": "native fault injection: valid definitions and every listed single fault at first/last position (+ random pairs) through ui.Model, python.compile, python.compile_ekf, cpp.compile, cpp.compile_ekf; generated files must not be written for refused definitions", "bound": f"{stats}", "failures": len(problems), "counted_as_proved": False})
     seen = set()
     for p in problems:
